@@ -65,7 +65,7 @@ def cases(draw):
             m = draw(st.sampled_from(["call", "jmp"]))
             insts.append({"addr": addr, "m": m, "ops": [ts + ann], "kind": kind, "T": T, "where": where})
         elif kind == "q-suffixed":
-            m = draw(st.sampled_from(["callq", "jmpq"]))
+            m = draw(st.sampled_from(["callq", "jmpq", "callw", "jmpw"]))  # callw/jmpw: what objdump 2.40 prints for 66 e8 / 66 e9
             insts.append({"addr": addr, "m": m, "ops": [ts + ann], "kind": kind, "T": T, "where": where})
         elif kind == "indirect":
             m = draw(st.sampled_from(["call", "jmp"]))
